@@ -53,7 +53,7 @@ FailStep ==
     /\ alive' = FALSE /\ nkex' = nkex
     /\ IF E.len = 0
          THEN \* nothing was read: the peer closed the connection (EOFError)
-              UNCHANGED <<rp, rb, op, ob, need>> /\ bad' = {}
+              UNCHANGED <<rp, rb, op, ob, gp, gb, need>> /\ bad' = {}
          ELSE /\ CountRecv(E.len)
               /\ bad' = S(~(need /\ (op + 1 + R.slack >= OP \/ ob + E.len + R.slackb >= OB)), "C_unexpected_failure")
 
@@ -62,7 +62,7 @@ NeedRekeyStep ==
     /\ bad' = S(~need, "C_needrekey_without_flag")
 
 SetOutStep ==
-    /\ SetOut /\ UNCHANGED <<rp, rb, op, ob>> /\ Keep
+    /\ SetOut /\ UNCHANGED <<rp, rb, op, ob, gp, gb>> /\ Keep
     /\ inkex' = IF need' THEN inkex ELSE FALSE
     /\ UNCHANGED <<cts, haveinit, kexdone, nkex>>
     /\ bad' = {}
